@@ -15,7 +15,9 @@ import (
 	"bytes"
 	"fmt"
 	"math/big"
+	"os"
 	"strings"
+	"time"
 
 	"go.dedis.ch/kyber/v4"
 	"go.dedis.ch/kyber/v4/group/mod"
@@ -130,8 +132,31 @@ func main() {
 		}
 	}
 
+	// ------------------------------------------------------------ composite parsers (concurrently, own report)
+	timing := os.Getenv("C04_TIMING") != ""
+	crep := vh.NewReport("C04", o.Seed, o.Tier)
+	ccf := &vh.CaseFile{}
+	ccb := &caseBuf{cf: ccf, cfh: ccf, rep: crep, per: 24, id: 1000000}
+	cdone := make(chan struct{})
+	go func() {
+		defer close(cdone)
+		tc := time.Now()
+		pan, msg := vh.Try(func() { composites(o, vh.NewRng(o.Seed^0xC04C04), crep, ccb) })
+		if pan {
+			crep.Fail("C04/composites/harness-panic", "the composite-parser section of the harness panicked outside a guarded call: "+msg, nil)
+		}
+		ccb.flush()
+		if timing {
+			fmt.Fprintf(os.Stderr, "composites %6.2fs\n", time.Since(tc).Seconds())
+		}
+	}()
+
 	// ------------------------------------------------------------ points
 	for _, in := range groups {
+		t0 := time.Now()
+		if timing {
+			defer func(n string, t time.Time) {}(in.Name, t0)
+		}
 		r := rng.Fork()
 		size := in.G.PointLen()
 		nv := nvalid
@@ -281,6 +306,9 @@ func main() {
 				}
 			}
 		}
+		if timing {
+			fmt.Fprintf(os.Stderr, "points %-28s %6.2fs (before cross-backend)\n", in.Name, time.Since(t0).Seconds())
+		}
 		// BLS12-381 G1/G2, membership by a different back-end: the (canonical) re-encoding of a
 		// value accepted by one back-end must be accepted, and re-encoded identically, by the others.
 		// Different decisions on the raw input are only counted (not a violation of this property).
@@ -411,9 +439,22 @@ func main() {
 	}
 	cb.flush()
 
-	// ------------------------------------------------------------ composite parsers
-	composites(o, rng.Fork(), rep, cb)
-	cb.flush()
+	// ------------------------------------------------------------ join the composite section
+	<-cdone
+	rep.Evaluations += crep.Evaluations
+	rep.Distinct += crep.Distinct // canonical texts are prefixed by the parser name: disjoint from the decoders'
+	for k, v := range crep.Distribution {
+		rep.Distribution[k] += v
+	}
+	rep.Failures = append(rep.Failures, crep.Failures...)
+	for k, v := range crep.CaseIndex {
+		rep.CaseIndex[k] = v
+	}
+	rep.Notes = append(rep.Notes, crep.Notes...)
+	for _, sm := range crep.Samples {
+		rep.Sample(sm)
+	}
+	cf.Items = append(cf.Items, ccf.Items...)
 
 	if !o.Search {
 		vh.WriteShards(o.Out, "c04e", cfh, 7, rep)
